@@ -15,7 +15,9 @@ for line in k['fixed']:
             e['props'].append(m.group(1))
 # reverts that no longer apply because a later fix touches the same lines;
 # each has a hand-written equivalent in the catalogue
-SKIP = {'80ae5d1'}      # -> c10-revert-private-params
+SKIP = {'80ae5d1',     # -> c10-revert-private-params
+        '3bae12f',     # -> c20-revert-socks-close
+        '1c9f7cb'}     # -> c09-revert-drain-redirected
 out = []
 for line in subprocess.check_output(
         ['git', '-C', '/repo', 'log', '--reverse', '--format=%h %s'],
